@@ -15,6 +15,9 @@ def extract(ctx):
     txt = _conc.extract(ctx, "C11", "C11.lean")
     _conc.extract(ctx, "C13", "C13.lean")  # Props/C11 also uses the shared-object write facts of the C13 extractor
     unknown = re.findall(r"def (\w+)Known : Bool := false\ndef \w+Why : String := \"([^\"]*)\"", txt)
+    m = re.search(r"def scopeLocking[^\n]*", txt)
+    if m and '"unknown"' in m.group(0):
+        unknown.append(("scopeLocking", "a lock call could not be tied to the scope lock / no hand-over of the lock recognised"))
     if unknown:
         ctx.notes.append("facts NOT established by the extractor (no obligation depends on them in this run; the stress run is "
                          "amplified instead): " + "; ".join(f"{n}: {w}" for n, w in unknown))
